@@ -1,3 +1,4 @@
+import RxnModel.Generated.Facts
 /-!
 # C14 — savepoint artifacts (storage/snapshots/savepoint_artifact.go, store.go, dkv/recovery/list_files.go)
 
@@ -311,6 +312,67 @@ def applyWork (fs : FS) : List WorkOp → FS
   | [] => fs
   | .put u c :: r => applyWork (write (.work u) c fs) r
   | .del u :: r => applyWork (remove (.work u) fs) r
+
+def WorkOp.uri : WorkOp → URI
+  | .put u _ => u
+  | .del u => u
+
+/-! ### creation is not atomic: the running job acts between its storage calls
+
+`CreateSavepointArtifact` runs in the publisher goroutine while the job goes on: operators take further checkpoints
+and apply retention updates (`DB.UpdateRetainedCheckpoints` rewrites the `checkpoints` document and deletes the WALs
+of dropped checkpoints), the store publishes the next checkpoint and removes obsolete job snapshots. A `Sched` gives,
+for every storage call of the creation in order (`fs.Read` of a document, every `fs.Copy`), what the environment
+does to the working storage just before it. -/
+abbrev Sched := List (List WorkOp)
+
+def Sched.step (fs : FS) : Sched → FS × Sched
+  | [] => (fs, [])
+  | e :: r => (applyWork fs e, r)
+
+def copyAllS (src dst : URI → Path) (fs : FS) (sch : Sched) : List URI → FS × Bool × Sched
+  | [] => (fs, true, sch)
+  | u :: r =>
+    match read (Sched.step fs sch).1 (src u) with
+    | none => ((Sched.step fs sch).1, false, (Sched.step fs sch).2)
+    | some c => copyAllS src dst (write (dst u) c (Sched.step fs sch).1) (Sched.step fs sch).2 r
+
+/-- how the operator's document reaches the artifact -/
+inductive DocMode
+  | copyFile    -- the code as it is: the document FILE is copied last, with whatever it holds by then (D53)
+  | writeRead   -- proposed repair: the content read at the start (the one the file list came from) is written
+  deriving DecidableEq, Repr
+
+/-- what the source does now (regenerated: `Facts.savepointDocFromRead`, tools/gofacts/facts_c14.go) -/
+def docMode : DocMode := if Facts.savepointDocFromRead = 1 then .writeRead else .copyFile
+
+def createOpsS (L : Lister) (m : DocMode) (sid : Nat) (fs : FS) (sch : Sched) : List OpCkpt → FS × Bool × Sched
+  | [] => (fs, true, sch)
+  | o :: r =>
+    match read (Sched.step fs sch).1 (.work o.uri) with
+    | some (.doc cks) =>
+      match listFiles L cks o.ckptId with
+      | none => ((Sched.step fs sch).1, false, (Sched.step fs sch).2)
+      | some files =>
+        match m with
+        | .copyFile =>
+          match copyAllS .work (artPath sid) (Sched.step fs sch).1 (Sched.step fs sch).2 (files ++ [o.uri]) with
+          | (fs', false, sch') => (fs', false, sch')
+          | (fs', true, sch') => createOpsS L m sid fs' sch' r
+        | .writeRead =>
+          match copyAllS .work (artPath sid) (Sched.step fs sch).1 (Sched.step fs sch).2 files with
+          | (fs', false, sch') => (fs', false, sch')
+          | (fs', true, sch') => createOpsS L m sid (write (artPath sid o.uri) (.doc cks) (Sched.step fs' sch').1) (Sched.step fs' sch').2 r
+    | _ => ((Sched.step fs sch).1, false, (Sched.step fs sch).2)
+
+/-- `CreateSavepointArtifact` with the environment acting between its storage calls -/
+def createArtifactS (L : Lister) (m : DocMode) (fs : FS) (jobURI : URI) (snap : JobSnap) (sch : Sched) : FS × Bool :=
+  match createOpsS L m snap.id fs sch snap.ops with
+  | (fs', false, _) => (fs', false)
+  | (fs', true, sch') =>
+    match read (Sched.step fs' sch').1 (.work jobURI) with
+    | none => ((Sched.step fs' sch').1, false)
+    | some c => (write (.spJob snap.id) c (Sched.step fs' sch').1, true)
 
 /-- what a job does to the storage over its life, including restarts from savepoints: operators and the store
 write and delete working files, snapshots are published (with artifact creation for savepoints and removal of
